@@ -795,10 +795,10 @@ def slice_bounds(lo, hi, n, st=None):
     if hi is None:
         end = n
     elif isinstance(hi, int):
-        end = z3.IntVal(hi) if hi >= 0 else zmax(n + hi, z3.IntVal(0))
+        end = z3.IntVal(hi) if hi >= 0 else n + hi      # may be negative: substr/extract then yield the empty sequence, as python does
     else:
         h = I(hi)
-        end = h if nonneg(h, st) else z3.If(h < 0, zmax(n + h, z3.IntVal(0)), h)
+        end = h if nonneg(h, st) else z3.If(h < 0, n + h, h)
     return start, end
 
 
